@@ -2,7 +2,7 @@
 every sentinel; insertion probes search past deleted slots (R-PROBE); every function maps a hash to a slot the same
 way (R-SIBLING.index); every map operation routes every HashMapStorage variant to a back end that consumes the key."""
 from vlib import fixtures
-from rules import sentinel, variant
+from rules import sentinel, variant, parallel
 
 FILE = "src/hash_map/zipora_hash_map.rs"
 OPS = ("::insert", "::get", "::get_mut", "::remove", "::clear", "::len")
@@ -10,13 +10,16 @@ OPS = ("::insert", "::get", "::get_mut", "::remove", "::clear", "::len")
 
 def run(ctx):
     fx = ctx.facts("default")
-    fixtures.run(ctx, ['variant', 'probe', 'sibling'])
+    fixtures.run(ctx, ['variant', 'probe', 'sibling', 'parallel'])
     sents, _ = sentinel.run(ctx, fx, FILE, "hash_map::zipora_hash_map::HashEntry::hash")
     sentinel.completeness(ctx, fx, FILE, "hash_map::zipora_hash_map::HashEntry::hash", sents)
     sentinel.probe_past_tombstones(ctx, fx, FILE, "hash_map::zipora_hash_map::HashEntry::hash", sents)
     ctx.floor("R-PROBE.probes", 1)
     sentinel.index_reduction_agreement(ctx, fx, FILE, "hash_map::zipora_hash_map::HashEntry::hash")
     ctx.floor("R-SIBLING.index.sites", 6)
+    # GoldHashMap keeps the cached hash of entries[i] in hash_cache[i]
+    parallel.run(ctx, fx, "src/hash_map/gold_hash_map.rs", "hash_map::gold_hash_map::GoldHashMap", "entries", "hash_cache")
+    ctx.floor("R-PARALLEL.functions", 2)
     ctx.floor("R-TAINT-S.complete.enumerators", 1)
     ctx.floor("R-TAINT-S.sources", 4)
     ctx.floor("R-TAINT-S.sinks", 5)
@@ -39,7 +42,8 @@ def run(ctx):
                     "argument with every sentinel (inferred structurally). R-PROBE: from the 'marker == tombstone' edge no store "
                     "into the marker is reachable within the same loop iteration without first taking the 'marker == empty' edge. "
                     "R-SIBLING.index: the binary operator applied to `hash as usize` (BitAnd vs Rem) is the same in every "
-                    "function of the file. R-VARIANT as in C05 over HashMapStorage.",
+                    "function of the file. R-PARALLEL: GoldHashMap.entries and .hash_cache are reshaped by the same kind of Vec "
+                    "operation in every function. R-VARIANT as in C05 over HashMapStorage.",
         trusted_base=["rustc nightly MIR", "zfacts", "rules/sentinel.py", "rules/variant.py"],
         rule_text="obligation = (hash sink) | (operation, storage variant)",
     )
